@@ -110,6 +110,30 @@ CHECKS = {
 
 NOT_BUILT_REASON = "check not built yet in this session (see DESIGN.md §10 for the plan); not claimed until it passes and has been mutation-tested"
 
+# sentences appended to the text of a check (extensions made after the fourth round of seeded changes)
+SIZE_LADDER = " SIZE LADDER: the same clauses on configurations beyond the implementation's capacity boundaries - more than 6 loops (inline 6x6 matrix storage), more than 8 edges, more than 64 signature entries (polygons to 10 edges, bananas and flowers to 8 loops, a 13-edge 5-loop graph; thorough: 12 edges, 9 loops, a 17-edge 4-loop graph) on a fixed sector subset."
+INPLACE = " IN-PLACE HISTORIES: on a fresh thread a different sampler is sampled, its memory slot is overwritten by the configuration under test, which is then sampled and judged by the same clauses (state keyed on an address is visible)."
+UNITS = " KINEMATIC UNITS: every 9th configuration again with all momenta and masses scaled by 2^-30 and by 2^24."
+EXTRA = {
+    "C01": SIZE_LADDER + UNITS,
+    "C02": SIZE_LADDER + INPLACE + UNITS,
+    "C03": " Larger shapes (cycle, path, star, multi-edge, self-loops, two components, K5 walk) with 5..10 edges (thorough: 12) in six (D, mass, weight) settings incl. odd D*L and pairwise different weights are judged by the same clauses.",
+    "C04": " Larger shapes (cycle, path, star, multi-edge, self-loops, two components, K5 walk) with 5..10 edges (thorough: 12) in six (D, mass, weight) settings incl. odd D*L and pairwise different weights are judged by the same clauses.",
+    "C05": " Larger shapes with 5..10 edges (thorough: 12) in six (D, mass, weight) settings are classified by the same exact oracle.",
+    "C06": " SIZE LADDER: polygons and bananas with 6..10 edges (thorough: 12) and numerically generic weights, the complete subset lattice of each with the same answer alphabet.",
+    "C07": SIZE_LADDER + INPLACE + UNITS,
+    "C08": SIZE_LADDER + INPLACE + UNITS,
+    "C09": SIZE_LADDER + INPLACE + UNITS,
+    "C10": SIZE_LADDER + INPLACE + UNITS + " WIDE SCALAR: on 2..4-loop bananas the whole sampler runs in double-double arithmetic and the quadratic-form identity of the returned momenta must hold to 2^-84*cond (a detour through f64 leaves 1e-16).",
+    "C11": SIZE_LADDER + INPLACE + UNITS,
+    "C13": INPLACE,
+    "C14": SIZE_LADDER + " UNDERFLOW ANSWERS: every xi coordinate also takes 1e-300, 2^-1074 and 0 (the running product of the parameters becomes exactly zero), alone and with one more deviation: the remaining coordinates must still be read in their roles.",
+    "C16": " POSITION ALPHABET: unit matrices of dimension 2..8 with, at every diagonal position, an indefinite 2x2 block, a semi-definite one or a 1e-310 entry (the inverse overflows) under all tolerances; bordered, balanced-pivot and graded-block families up to 8x8; the evaluation bound counts only non-zero products. The evidence reports, per family, the exact distance in units of the slack (decisive where > 1).",
+    "C17": " The in-place rebuild operation also drives the replacement sampler (different number of draws) through generate_sample_from_rng.",
+    "C18": SIZE_LADDER + " Loop signatures multiplied by 200, -129, 70000 and -2^33 (entries beyond i8/i16/i32) are round-tripped through all three formats and sampled.",
+    "C19": SIZE_LADDER,
+}
+
 def main():
     extra_path = os.path.join(os.path.dirname(__file__), "manifest_extra.json")
     checks = dict(CHECKS)
@@ -139,6 +163,7 @@ def main():
     for pid in ALL:
         if pid in checks:
             eng, level, tech, text, note, ref = checks[pid]
+            text = text + EXTRA.get(pid, "")
             man["checks"].append({
                 "property_id": pid,
                 "quick_cmd": f"./check {pid} quick",
